@@ -188,7 +188,9 @@ var ttCallForms = []ttCallForm{
 	{name: "closure-arg", space: true, leak: 1, self: true, only: func(d ttDefKind) bool { return !d.typed && !d.variadic && !d.lazy },
 		mk: func(d ttDefKind, h, r string) string { return "(" + h + " (- n 1) (fn [] n))" }},
 	{name: "for-arg", space: true, leak: 1, self: true, only: func(d ttDefKind) bool { return !d.variadic && !d.lazy },
-		mk: func(d ttDefKind, h, r string) string { return "(" + h + " (- n 1) (begin (for " + ttLoop1 + " i) " + ttStep(d) + "))" }},
+		mk: func(d ttDefKind, h, r string) string {
+			return "(" + h + " (- n 1) (begin (for " + ttLoop1 + " i) " + ttStep(d) + "))"
+		}},
 	{name: "closure-in-call-arg", space: true, leak: 1, only: func(d ttDefKind) bool { return !d.variadic && !d.lazy },
 		mk: func(d ttDefKind, h, r string) string { return "(" + h + " (- n 1) (+ acc (len [(fn [] n)])))" }},
 	{name: "selfcall-arg", space: true, mk: func(d ttDefKind, h, r string) string {
@@ -431,9 +433,9 @@ type ttSpec struct {
 	Pos    string `json:"pos"`
 	Ctxs   string `json:"ctxs"` // '/'-separated, outermost first
 	Feat   string `json:"feat"`
-	Rebind int    `json:"rebind"` // index into ttRebinds, -1: none
-	Clos   bool   `json:"clos"`   // the accumulator collects closures over n, called afterwards
-	Tail   bool   `json:"tail"`   // the self call is in one of the property's tail positions: the space half applies
+	Rebind int    `json:"rebind"`   // index into ttRebinds, -1: none
+	Clos   bool   `json:"clos"`     // the accumulator collects closures over n, called afterwards
+	Tail   bool   `json:"tail"`     // the self call is in one of the property's tail positions: the space half applies
 	Leak   int    `json:"leak"`     // fn / for forms the body evaluates, per level, as (part of) arguments of calls
 	LeakS  int    `json:"leakself"` // those of them that are arguments of the self call itself
 }
